@@ -24,6 +24,20 @@ def classify_moment_violation(case, violation, recs, program):
         return None
     av = abstracted_condition_vars(program)
     if av:
+        # the abstracted event is a function of everything its variables are computed from (w = u + d -> u, d) ...
+        try:
+            pv = {str(v) for v in program.variables}
+            changed = True
+            while changed:
+                changed = False
+                for a in program.loop_body:
+                    if str(a.variable) in av:
+                        anc = {str(x) for x in a.get_free_symbols(with_condition=False)} & pv
+                        if not anc <= av:
+                            av |= anc
+                            changed = True
+        except Exception:
+            pass
         goal = violation.get("goal", "")
         import re
         gv = set(re.findall(r"[A-Za-z_][A-Za-z_0-9]*", goal))
